@@ -304,7 +304,7 @@ def better (a : Int) : Option Int → Bool
   | none => true
   | some b => a > b
 
-def upd {β : Type} (f : Link → β) (x : Link) (b : β) : Link → β := fun y => if y = x then b else f y
+@[noinline] def upd {β : Type} (f : Link → β) (x : Link) (b : β) : Link → β := fun y => if y = x then b else f y
 
 /-- initial scores of `lattice_bestpath` l.775-787 -/
 def bestInit (L : Lat) : Scores × (Link → Option Link) :=
